@@ -31,7 +31,9 @@ RULE = (
     "validity = positive volumes adding up to the domain measure, closed, non-self-intersecting "
     "cells); `partition_arguments` num_subproblems in {1 (main alphabet), 2, 3}; sequences: ONE "
     "Mpsa object and stiffness object used for two grids in a row (same sizes / different "
-    "topology; same topology / different geometry; the same grid object moved)"
+    "topology; same topology / different geometry; the same grid object moved); grids with MIXED "
+    "FACE TYPES: prisms from grid_extrusion of StructuredTriangleGrid (3- and 4-node faces), plain, "
+    "base-perturbed and sheared, with all-Dirichlet, every single Neumann face and admissible pairs"
 )
 ASSUMPTIONS = [
     "constant isotropic stiffness; every boundary face is entirely Dirichlet or entirely "
@@ -56,7 +58,9 @@ BOUNDS = {
     "all-Dirichlet and side-wise assignments; eta in {0,0.25,1/3} and scale in {1e-3,1e3} "
     "(with repeated discretize) on C(2,2)~, T(2,2)~ (side-wise + <=2 flips), Tet(1,1,1)~, "
     "C(2,2,2)@shear (<=1), (mu,lambda)=(1,10); 3 dart grids side-wise + <=2 flips; num_subproblems "
-    "in {2,3} on C(3,2)@shear, T(2,2)~, a dart grid, Tet(1,1,1)~, C(2,2,2)@shear",
+    "in {2,3} on C(3,2)@shear, T(2,2)~, a dart grid, Tet(1,1,1)~, C(2,2,2)@shear; prisms "
+    "Prism(2,2;z=0,.4,1) (plain, base-perturbed), Prism(2,1) (plain, @shear): independent Neumann "
+    "sets <=1 (<=2 on the Prism(2,1) grids), plus reuse / nsub=2 / eta=0.25 letters",
     "thorough": "2-d: C(2,2), T(2,2) x all 9 offsets x all 256 assignments; C(3,2) x all 81 "
     "offset pairs x (side-wise + <=2 flips); C(3,2), T(3,2) @shear/@skew all 1024 "
     "assignments; 3-d: Tet(1,1,1) x 27 offsets of a corner node x independent sets <=3; "
@@ -64,7 +68,8 @@ BOUNDS = {
     "(mu,lambda) in {(1,1),(1,10),(3,0)}; eta in {0,0.25,1/3}: C(2,2)~, T(2,2)~ all 256 "
     "assignments, Tet(1,1,1)~, C(2,2,2)@shear independent sets <=2, all three Lame pairs; scale "
     "in {1e-3,1e3}: same grids, side-wise + <=2 flips / <=1; 5 dart grids; num_subproblems in {2,3} "
-    "as quick with <=2 flips and all Lame pairs",
+    "as quick with <=2 flips and all Lame pairs; prisms: independent sets <=2 on all four grids, all "
+    "Lame pairs",
 }
 MIN_CLASSES = 6
 CHUNK = 4
@@ -101,6 +106,12 @@ DARTS = [  # valid non-convex (dart) quadrilaterals: an interior node moved past
     {"kind": "cart", "n": [3, 2], "set": [[5, [0.06, 0.1]]]},
     {"kind": "cart", "n": [3, 3], "set": [[5, [0.05, 0.07]], [10, [0.95, 0.93]]]},
 ]
+PRISMS = [  # extruded triangle grids: cells with triangular AND quadrilateral faces
+    {"kind": "prism", "n": [2, 2], "z": [0, 0.4, 1]},
+    {"kind": "prism", "n": [2, 1], "z": [0, 0.4, 1]},
+    {"kind": "prism", "n": [2, 2], "z": [0, 0.4, 1], "pert": [[4, [1, -1]]]},
+    {"kind": "prism", "n": [2, 1], "z": [0, 0.4, 1], "map": "shear"},
+]
 PARTS = [2, 3]  # partition_arguments num_subproblems (1 = default path, main alphabet)
 ETAS = [0.0, 0.25, 1.0 / 3.0]  # None (default) is the main alphabet
 SCALES = [1e-3, 1e3]
@@ -131,6 +142,13 @@ def _axes_cases(tier):
             out += _side_cases(spec, mulam=ml, nsub=k) + _indep_cases(spec, 1 if quick else 2, 1, mulam=ml, nsub=k)
         for spec in fam3:
             out += _indep_cases(spec, 1, 1, mulam=ml, nsub=k)
+    # mixed face types (prisms): all-Dirichlet + EVERY single Neumann face, plus admissible pairs
+    for i, spec in enumerate(PRISMS):
+        pairs = (not quick) or i in (1, 3)
+        out += _indep_cases(spec, 2 if pairs else 1, 4 if pairs else 1, mulam=ml)
+    out += _indep_cases(PRISMS[1], 1, 1, mulam=ml, reuse=True)
+    out += _indep_cases(PRISMS[1], 1, 1, mulam=ml, nsub=2)
+    out += _indep_cases(PRISMS[3], 1, 1, mulam=ml, eta=0.25)
     # ONE Mpsa object (and stiffness object) reused for two grids
     for kind, s1, s2 in G.SEQ_PAIRS_2D:
         out += [dict(c, seq=[kind, s1, s2]) for c in _side_cases(s1, mulam=ml)]
